@@ -49,6 +49,7 @@ fn dispatch(cmd: &str, args: &[&str]) -> String {
         "AST" => lang::ast(args),
         "BKD" => bkd::bkd(args),
         "BKDR" => bkd::bkdr(args),
+        "BKDC" => bkd::bkdc(args),
         "RUN" => rt::run(args),
         "RUNPAIR" => rt::runpair(args),
         "RUNRAW" => {
